@@ -437,7 +437,7 @@ func (pw *PgWorld) applyStreamFaults(s *stream, conns []*SimConn) {
 			continue
 		}
 		switch f.Kind {
-		case "corrupt-payload", "tiny-length":
+		case "corrupt-payload", "tiny-length", "ones-field":
 			if s.name == "client->proxy-c" && pw.delivered[s.name] == 1 && !pw.mysql {
 				// the startup message has no type byte: its own length field is set to 4..8 (the protocol
 				// version stays) and the message is cut accordingly
@@ -450,6 +450,8 @@ func (pw *PgWorld) applyStreamFaults(s *stream, conns []*SimConn) {
 			tiny := -1
 			if f.Kind == "tiny-length" {
 				tiny = int(f.Arg) % 4
+			} else if f.Kind == "ones-field" {
+				tiny = -2
 			}
 			hit := false
 			if pw.mysql {
@@ -465,6 +467,15 @@ func (pw *PgWorld) applyStreamFaults(s *stream, conns []*SimConn) {
 			if s.corrupt(int(f.Arg>>8), byte(f.Arg)|1) {
 				w.Res.Fired["corrupt-byte"]++
 				w.Event(0, "FAULT corrupt "+s.name, fmt.Sprintf("off=%d mask=%02x", f.Arg>>8, byte(f.Arg)|1))
+			}
+		case "inject":
+			corpus := hostileClientMessagesPg
+			if pw.mysql {
+				corpus = hostileClientMessagesMy
+			}
+			if s.name == "client->proxy-c" && pw.delivered[s.name] > 1 && s.inject(corpus[int(f.Arg)%len(corpus)]) {
+				w.Res.Fired["injected-message"]++
+				w.Event(0, "FAULT inject "+s.name, fmt.Sprint(int(f.Arg)%len(corpus)))
 			}
 		case "cut":
 			for _, c := range conns {
